@@ -89,6 +89,17 @@ class _Conn(object):
         del lst[:]
         return out
 
+    def run_script(self, items):
+        """deliver a whole script (byte chunks and exceptions to be raised by the read call).
+        Synchronous stream handlers run it inside ONE handle() invocation, as in production."""
+        out = []
+        for it in items:
+            if isinstance(it, BaseException):
+                out.extend(self.feed(None, fault=it))
+            else:
+                out.extend(self.feed(it))
+        return out
+
 
 class Server(object):
     def __init__(self, front, framing, context, broadcast_enable=False, ignore_missing_slaves=False):
@@ -232,6 +243,23 @@ class _SyncStream(_Conn):
             self._finish()
         return self._take(self.sock.writes)
 
+    def run_script(self, items):
+        if self.closed:
+            return []
+        self.sock.script = [it if isinstance(it, BaseException) else bytes(it) for it in items]
+        self.sock.eof_seen = False
+        self.h.running = True
+        try:
+            self.h.handle()
+        except BaseException as e:   # noqa
+            self.srv.escaped.append(('sync-tcp.handle', e))
+            self.closed = True
+        if not self.sock.eof_seen:
+            self.closed = True
+        if self.closed:
+            self._finish()
+        return self._take(self.sock.writes)
+
     def _finish(self):
         try:
             self.h.finish()
@@ -251,6 +279,17 @@ class _SyncSerial(_Conn):
     def feed(self, chunk, fault=None):
         port = self.srv.port
         port.script = [fault if fault is not None else bytes(chunk)]
+        h = self.srv.obj.handler
+        h.running = True
+        try:
+            h.handle()
+        except BaseException as e:   # noqa
+            self.srv.escaped.append(('sync-serial.handle', e))
+        return self._take(port.writes)
+
+    def run_script(self, items):
+        port = self.srv.port
+        port.script = [it if isinstance(it, BaseException) else bytes(it) for it in items]
         h = self.srv.obj.handler
         h.running = True
         try:
